@@ -313,7 +313,7 @@ pub fn build(rng: &mut Rng, tier: u32) -> Built {
                     v.push(format!("permits: produced {} != consumed {} + left {}", ld(&sh2.produced), ld(&sh2.consumed), left));
                 }
                 if ld(&sh2.waiting) != 0 {
-                    v.push(format!("{} waiters still registered at the end", ld(&sh2.waiting)));
+                    v.push(format!("waiters: {} still registered at the end", ld(&sh2.waiting)));
                 }
             }
             v
